@@ -46,7 +46,7 @@ PROPS["C01"] = {
             "every transition executes the real code and compares as_bytes/predicates with integer arithmetic mod p. "
             "A state is non-trivial (counted in distinct_nontrivial) if it is a distinct (depth, limbs) state of the machine.",
     "assumptions": COMMON_ASSUMPTIONS,
-    "runs": lambda tier: [R("simd"), R("serial32")] if tier == "quick" else [R(b) for b in ALL_BACKENDS],
+    "runs": lambda tier: [R("simd"), R("serial32"), R("fiat64"), R("fiat32"), R("avx512")] if tier == "quick" else [R(b) for b in ALL_BACKENDS],
     "level_text": "Explicit-state exploration of operation chains on the real field types from raw-limb lattice corners (all limbs at 0 / mask / headroom bound), every step compared with integer arithmetic mod p; exhaustive within the stated lattice, depth and pool, for every backend's representation.",
     "design_ref": "DESIGN.md section 4, C01",
     "level_note": "Decides the property for the enumerated limb lattice and depth only; trusted: reference model (self-tested), hooks forward unchanged, stateright search engine.",
@@ -83,7 +83,7 @@ PROPS["C03"] = _std(
     "Explicit-state exploration of group-operation histories on the real EdwardsPoint representation against the affine twisted-Edwards law, with torsion and exceptional points in the alphabet; decoder enumerated on structured encodings.",
     "DESIGN.md section 4, C03",
     "explicit-state BFS (stateright) over real point representations + decoder alphabet enumeration against the affine group law",
-    lambda tier: [R("simd"), R("simd", dispatch="serial"), R("serial32")] if tier == "quick" else
+    lambda tier: [R("simd"), R("simd", dispatch="serial"), R("serial32"), R("avx512")] if tier == "quick" else
                  [R("simd"), R("simd", dispatch="serial"), R("serial32"), R("serial64"), R("fiat64"), R("fiat32"), R("avx512"), R("avx512", dispatch="avx2")],
 )
 
@@ -96,7 +96,7 @@ PROPS["C04"] = _std(
     "Exhaustive over a structured scalar/point/size alphabet that covers every state of each recoding transducer and every algorithm switch; each backend's copy via forced dispatch.",
     "DESIGN.md section 4, C04",
     "exhaustive enumeration of recoding-transducer states and size regimes against a reference model, per backend copy (forced dispatch)",
-    lambda tier: [R("simd"), R("simd", dispatch="serial"), R("serial32", "rel-notables")] if tier == "quick" else
+    lambda tier: [R("simd"), R("simd", dispatch="serial"), R("serial32", "rel-notables"), R("avx512")] if tier == "quick" else
                  [R("simd"), R("simd", dispatch="serial"), R("simd", "rel-notables"), R("simd", "rel-notables", dispatch="serial"),
                   R("serial32"), R("serial32", "rel-notables"), R("serial64"), R("fiat64"), R("fiat32"),
                   R("avx512"), R("avx512", dispatch="avx2"), R("avx512", dispatch="serial"), R("avx512", "rel-notables")],
@@ -151,7 +151,7 @@ PROPS["C12"] = _std(
     "The space is finite and enumerated completely for each built configuration.",
     "DESIGN.md section 4, C12",
     "complete enumeration of all table entries and constants against their definitions in the reference model",
-    lambda tier: [R("simd"), R("simd", dispatch="serial"), R("serial32")] if tier == "quick" else
+    lambda tier: [R("simd"), R("simd", dispatch="serial"), R("serial32"), R("avx512")] if tier == "quick" else
                  [R("simd"), R("simd", dispatch="serial"), R("simd", "rel-notables"), R("serial32"), R("serial64"), R("fiat64"), R("fiat32"),
                   R("avx512"), R("avx512", dispatch="avx2"), R("avx512", dispatch="serial")],
     exhaustive=True,
@@ -279,7 +279,7 @@ def _cfgname(r):
 
 def _c05_runs(tier):
     if tier == "quick":
-        cfgs = [R("simd"), R("simd", dispatch="serial"), R("serial32"), R("serial32", "rel-notables")]
+        cfgs = [R("simd"), R("simd", dispatch="serial"), R("serial32"), R("serial32", "rel-notables"), R("avx512"), R("fiat64")]
         streams = ["C02", "C04", "C07", "C08", "C09", "C12", "C16"]
     else:
         cfgs = []
@@ -393,5 +393,5 @@ PROPS["C14"] = _std(
     "Exhaustive enumeration of bounded create/clone/use/zeroize/drop histories with an allocator-level observer; differential freed-heap comparison across secrets under every dispatch.",
     "DESIGN.md section 4, C14",
     "exhaustive enumeration of object lifecycles under a heap observer + differential freed-block comparison",
-    lambda tier: [R("simd"), R("simd", dispatch="serial")] if tier == "quick" else [R("simd"), R("simd", dispatch="serial"), R("serial32"), R("fiat64"), R("avx512"), R("avx512", dispatch="avx2"), R("avx512", dispatch="serial")],
+    lambda tier: [R("simd"), R("simd", dispatch="serial"), R("avx512")] if tier == "quick" else [R("simd"), R("simd", dispatch="serial"), R("serial32"), R("fiat64"), R("avx512"), R("avx512", dispatch="avx2"), R("avx512", dispatch="serial")],
 )
